@@ -109,7 +109,7 @@ def case_st(draw):
     names = sorted(files)
     # the history is built against a model of the client state so that every event is effective, and (half of the
     # time) concentrates on a group of files that depend on each other
-    groups = [["ze_ext.f90", "ze_use.f90", "za_first.f90"], ["ze_ext.f90", "zf_leaf.f90"], ["ze_ext.f90", "ze_use.f90", "zf_leaf.f90"], ["zs_par.f90", "zs_sub.f90"], ["zi_inc.f90", "zi_main.f90"], ["zq_cfg.h", "zq_a.F90", "zq_b.F90"], sorted(r.files),
+    groups = [["zd1/zd_a.F90", "zd2/zd_b.F90"], ["ze_ext.f90", "ze_use.f90", "za_first.f90"], ["ze_ext.f90", "zf_leaf.f90"], ["ze_ext.f90", "ze_use.f90", "zf_leaf.f90"], ["zs_par.f90", "zs_sub.f90"], ["zi_inc.f90", "zi_main.f90"], ["zq_cfg.h", "zq_a.F90", "zq_b.F90"], sorted(r.files),
               sorted(r.files) + ["ze_ext.f90", "ze_use.f90"]]
     focus = draw(st.sampled_from([None, None, None] + groups))
     pool = (focus or names) + sorted(extra)
@@ -125,15 +125,20 @@ def case_st(draw):
             "create": [f for f in pool if f not in on_disk],
             "disk": [f for f in pool if f in on_disk],
             "query": [names[0]],
+            "burst": [f for f in pool if f in on_disk and f in ("ze_ext.f90", "zs_par.f90", "zi_inc.f90")],
         }
         weights = ["open", "open", "change", "change", "change", "save", "save", "close", "delete", "delete", "create", "create", "disk", "query", "query"]
+        if not any(o[0] == "burst" for o in ops):
+            weights = weights + ["burst", "burst"]
         kinds = [k for k in weights if app[k]]
         kind = draw(st.sampled_from(kinds))
         f = draw(st.sampled_from(app[kind]))
         v = draw(st.integers(0, 7))
         mode = draw(st.sampled_from(["full", "ranged"]))
+        if kind == "burst":
+            mode = draw(st.sampled_from([3, 999, 999, 1000, 1999]))
         ops.append([kind, f, v, mode])
-        if kind == "open":
+        if kind in ("open", "burst"):
             is_open.add(f)
         elif kind == "close":
             is_open.discard(f)
@@ -171,8 +176,19 @@ BUNDLE["zq_b.F90"] = ("#include \"zq_cfg.h\"\nmodule zq_b\n  implicit none\n  re
                       "#if ZQ_MODE == 2\n  integer :: zq_b_fast\n#else\n  integer :: zq_b_slow\n#endif\nend module zq_b\n")
 BUNDLE["za_first.f90"] = ("module za_first\n  use ze_child\n  implicit none\ncontains\n  subroutine za_go()\n    associate (qq => ze_obj%pc)\n"
                           "      ze_obj%cc = qq\n    end associate\n    call ze_obj%pb()\n  end subroutine za_go\nend module za_first\n")
+# two directories: a source in one of them includes a header that lives in the other one only, which is not on any
+# search path (the header is found in the includer's own directory or in include_dirs; the directory of some other
+# file that happened to be parsed earlier is neither)
+BUNDLE["zd1/zd_a.F90"] = ("#include \"zd_x.h\"\nmodule zd_a\n  implicit none\n#ifdef ZD_N\n  integer :: zd_with(ZD_N)\n#else\n  integer :: zd_without\n#endif\n"
+                          "contains\n  subroutine zd_sa()\n    zd_\n  end subroutine zd_sa\nend module zd_a\n")
+BUNDLE["zd2/zd_x.h"] = "#define ZD_N 3\n"
+BUNDLE["zd2/zd_b.F90"] = "#include \"zd_x.h\"\nmodule zd_b\n  implicit none\n  integer :: zd_w(ZD_N)\nend module zd_b\n"
 BUNDLE_VARIANTS = {
-    "zi_inc.f90": ["      integer :: inc_renamed\n      real :: inc_other\n", "      real :: inc_other\n", "      integer :: inc_var, inc_more\n      real :: inc_other\n"],
+    "zd1/zd_a.F90": [BUNDLE["zd1/zd_a.F90"].replace("implicit none\n", "implicit none\n  integer :: zd_more\n")],
+    "zd2/zd_b.F90": [BUNDLE["zd2/zd_b.F90"].replace("zd_w", "zd_ww")],
+    "zd2/zd_x.h": ["#define ZD_N 4\n"],
+    "zi_inc.f90": ["      integer :: inc_renamed\n      real :: inc_other\n", "      real :: inc_other\n", "      integer :: inc_var, inc_more\n      real :: inc_other\n",
+                   "! nothing is declared here any more\n"],
     "zi_main.f90": ["subroutine zi_user()\n  implicit none\n  integer :: own\n  own = 1\nend subroutine zi_user\n"],
     "zs_par.f90": [BUNDLE["zs_par.f90"].replace("zs_dbl", "zs_dbx"), BUNDLE["zs_par.f90"].replace("zs_work", "zs_other"), BUNDLE["zs_par.f90"].replace("integer :: zc", "integer :: zc\n    integer :: zd"),
                    BUNDLE["zs_par.f90"].replace("zs_t", "zs_u")],
@@ -214,6 +230,7 @@ def execute(case, scratch):
     os.makedirs(root)
     disk = dict(case["files"])
     for n, t in disk.items():
+        os.makedirs(os.path.dirname(os.path.join(root, n)), exist_ok=True)
         with open(os.path.join(root, n), "w") as fh:
             fh.write(t)
     srv = Server(root=root, argv=C10_ARGV)
@@ -245,6 +262,32 @@ def execute(case, scratch):
                         info["effective_ops"] += 1
                         if n.endswith(".h"):
                             info["headers_touched"].add(n)
+                        if info["queried"] and n in case["variants"]:
+                            info["changed_dep"] = True
+            elif kind == "burst":
+                # many changes between two saves (key strokes): the text alternates between two versions
+                if n in disk and n not in buf:
+                    srv.did_open(P(n))
+                    buf[n] = disk[n]
+                if n in buf:
+                    a, b = version(n, v), version(n, v + 1)
+                    if (a if (mode - 1) % 2 else b) == buf[n]:
+                        a, b = b, a  # end on a text that differs from the one saved before the burst
+                    if a != b:
+                        # save first, so that the burst is all that happens between two saves
+                        with open(P(n), "w") as fh:
+                            fh.write(buf[n])
+                        disk[n] = buf[n]
+                        srv.did_save(P(n))
+                        for k in range(mode):
+                            srv.did_change(P(n), [{"text": a if k % 2 else b}])
+                        buf[n] = a if (mode - 1) % 2 else b
+                        with open(P(n), "w") as fh:
+                            fh.write(buf[n])
+                        disk[n] = buf[n]
+                        srv.did_save(P(n))
+                        info["effective_ops"] += 1
+                        info["burst"] = max(info.get("burst", 0), mode)
                         if info["queried"] and n in case["variants"]:
                             info["changed_dep"] = True
             elif kind == "save":
@@ -323,7 +366,7 @@ def execute(case, scratch):
     seen = set()
     # files that #include a header the history modified, deleted or re-created
     includers = {n for n, t in list(disk.items()) + list(case["files"].items())
-                 if any(re.search(r'^\s*#\s*include\s*"%s"' % re.escape(h), t, re.M) for h in info["headers_touched"])}
+                 if any(re.search(r'^\s*#\s*include\s*"%s"' % re.escape(os.path.basename(h)), t, re.M) for h in info["headers_touched"])}
     parent_now = disk.get("zs_par.f90", "")
     for sec, key, a, b in battery.diff(b_long, b_fresh):
         label = "history-dependent:" + sec
@@ -367,7 +410,8 @@ def run(ctx):
         ctx.case(json.dumps(case["ops"]) + str(hash(tuple(sorted(case["files"].items())))), bool(nt),
                  sample={"ops": case["ops"], "files": sorted(case["files"]), "n_variants": {k: len(v) for k, v in case["variants"].items()}},
                  classes=[f"ops:{min(info['effective_ops'], 12) // 3 * 3}+"] + (["changed-dependency-after-query"] if info["changed_dep"] else [])
-                 + (["deleted"] if info["deleted"] else []) + (["created"] if info["created"] else []))
+                 + (["deleted"] if info["deleted"] else []) + (["created"] if info["created"] else [])
+                 + ([f"burst:{info['burst']}-changes-between-two-saves"] if info.get("burst") else []))
         return discs
 
     ctx.hyp(case_st(), oracle, max_examples=ctx.n(70, 800), collect=bool(os.environ.get("VERIF_COLLECT")))
